@@ -350,3 +350,94 @@ func ruleISRChangeCarriesTheReplicatorsGeneration(c *eng.Ctx) {
 		c.Check(ok == 2, fn.Name()+" carries the replicator's (leader, epoch)", p.Pos(fn.Pos()), "Leader: r.leader, LeaderEpoch: r.epoch", "the ISR change request does not carry the replicator's own leader and epoch: the controller's staleness fence is bypassed or always fails")
 	}
 }
+
+// ruleInternalPublishResumesThePartition (R18.3 extension): the activity dispatcher publishes through apiServer.publishInternal.
+// The activity stream is a stream like any other: with streams.auto.pause.time it pauses itself when idle, and only a publish
+// that resumes the partition first can ever be acknowledged. So on the way from publishInternal to the publish itself, the
+// partition is resumed (in publishInternal or in the function it hands the request to).
+func ruleInternalPublishResumesThePartition(c *eng.Ctx) {
+	p := c.P
+	entry := c.Fn("server.(*apiServer).publishInternal")
+	if entry == nil {
+		return
+	}
+	// follow publishInternal into the module functions it calls (two levels): the function that publishes
+	seen := map[*ssa.Function]bool{}
+	var walk func(fn *ssa.Function, resumed bool, depth int) (found, ok bool)
+	walk = func(fn *ssa.Function, resumed bool, depth int) (found, ok bool) {
+		if seen[fn] || depth > 3 {
+			return false, true
+		}
+		seen[fn] = true
+		ok = true
+		pubs := eng.CallsIn(fn, "server.apiServer.publish", "server.apiServer.publishSync", "github.com/nats-io/nats.go.Conn.Publish", "github.com/nats-io/nats.go.Conn.PublishMsg")
+		for _, pc := range pubs {
+			found = true
+			if resumed {
+				continue
+			}
+			g, _ := eng.PrecededBy(fn, pc.(ssa.Instruction), eng.IsCallTo("server.apiServer.resumeStream"))
+			if !g {
+				ok = false
+			}
+		}
+		if found {
+			return found, ok
+		}
+		eng.Instrs(fn, func(in ssa.Instruction) {
+			call, isCall := in.(*ssa.Call)
+			if !isCall {
+				return
+			}
+			g := call.Call.StaticCallee()
+			if g == nil || !p.IsModuleFunc(g) || g.Pkg != fn.Pkg || len(g.Blocks) == 0 {
+				return
+			}
+			r := resumed
+			if !r {
+				r, _ = eng.PrecededBy(fn, in, eng.IsCallTo("server.apiServer.resumeStream"))
+			}
+			f2, ok2 := walk(g, r, depth+1)
+			if f2 {
+				found = true
+				if !ok2 {
+					ok = false
+				}
+			}
+		})
+		return found, ok
+	}
+	found, ok := walk(entry, false, 0)
+	if !found {
+		c.Unresolved("the publish reached from apiServer.publishInternal")
+		return
+	}
+	c.Check(ok, "an internal publish resumes the partition before it publishes", p.Pos(entry.Pos()), "resumeStream(stream, partition) on every way from publishInternal to the publish", "apiServer.publishInternal reaches the publish without resuming the partition: when the activity stream has paused itself (streams.auto.pause.time and an idle period) the dispatcher's publish is never acknowledged, it retries the same event for ever, and nothing committed afterwards is ever listed")
+}
+
+// ruleInstanceIDComesFromTheIDFile (R19.3 extension): the instance id a report carries is the one loadOrCreateInstanceID
+// answers (random, or read back from the id file) — the collector is never handed an id from outside. The server's own id is
+// operator-chosen (clustering.server.id, usually a host or pod name): sending it names the deployment.
+func ruleInstanceIDComesFromTheIDFile(c *eng.Ctx) {
+	fn := c.Fn("server/telemetry.New")
+	if fn == nil {
+		return
+	}
+	n := 0
+	for _, st := range eng.FieldStores(fn, func(fa *ssa.FieldAddr) bool {
+		return eng.FieldNameOf(fa) == "instanceID" && strings.HasSuffix(fa.X.Type().String(), "telemetry.Collector")
+	}) {
+		n++
+		bad := ""
+		for _, s := range phiSources(st.Val) {
+			e, ok := s.(*ssa.Extract)
+			if !ok || e.Index != 0 || !eng.Call(-1, "server/telemetry.loadOrCreateInstanceID")(e.Tuple) {
+				bad = eng.Describe(s)
+			}
+		}
+		c.Check(bad == "", "the collector's instance id is the one the id file yields", c.Pos(st), "instanceID: the answer of loadOrCreateInstanceID(cfg.DataDir)", "telemetry.New can take the instance id from "+bad+" instead of the id file: whatever the caller passes — the server's own id is an operator-chosen name, typically a host or pod name — leaves the server with every report")
+	}
+	if n == 0 {
+		c.Unresolved("the store of Collector.instanceID in telemetry.New")
+	}
+}
